@@ -330,6 +330,39 @@ def r05b(P, R):
     _guarded(R, "R05-b", "anchor:direction", _r05b_direction, P, R)
 
 
+def _none_in_tuple_match(f):
+    """`let k = inout_kind_of_type(..); match (k, mode) { (None, _) => <UnknownType>, .. }`: the result is matched as a component of
+    a tuple and every arm whose pattern has `None` in that component constructs UnknownType"""
+    cd = CK + "types::inout_kind_of_type"
+    lets = [n for n in f.walk() if n.get("k") == "Let" and n.get("init") is not None and n["pat"].get("k") == "Binding"
+            and any(x.get("k") == "Call" and call_name(x) == cd for x in subnodes(n["init"]))]
+    if len(lets) != 1:
+        return False
+    lid = lets[0]["pat"]["local"]
+    for m in f.walk():
+        if m.get("k") != "Match" or m["scrut"].get("k") != "Tup":
+            continue
+        idx = [i for i, e in enumerate(m["scrut"]["es"]) if e.get("k") == "Path" and e.get("local") == lid]
+        if len(idx) != 1:
+            continue
+        none_arms = []
+        for arm in m["arms"]:
+            pat = arm["pat"]
+            if pat.get("k") != "Tuple" or len(pat["ps"]) != len(m["scrut"]["es"]):
+                return False
+            v, catch = arm_variants({"arms": [{"pat": pat["ps"][idx[0]]}]})
+            if "None" in v or catch:
+                none_arms.append(arm)
+        first = none_arms[0] if none_arms else None
+        # arms are tried in order: the first arm that admits None must be exactly the None case, unguarded, and report
+        if first is not None and "guard" not in first and arm_variants({"arms": [{"pat": first["pat"]["ps"][idx[0]]}]})[0] == {"None"}:
+            others = [p_ for j, p_ in enumerate(first["pat"]["ps"]) if j != idx[0]]
+            if all(arm_variants({"arms": [{"pat": p_}]}) == (set(), True) for p_ in others):
+                return "UnknownType" in diag_sites(subnodes(first["body"]))
+        return False
+    return False
+
+
 def _r05b_none(P, R):
     for posn, _p, _d in OUTPUT_POS:
         try:
@@ -337,7 +370,15 @@ def _r05b_none(P, R):
         except AnchorMissing as e:
             R.undecided("R05-b", "none:" + POSITIONS[posn], "kind=anchor-missing: %s" % e)
             continue
-        n = none_handling(P, R, "R05-b", f)
+        buf = harness.Reporter(R.prop, R.tier)
+        n = none_handling(P, buf, "R05-b", f)
+        tuple_ok = _none_in_tuple_match(f)
+        for r_ in buf.results:
+            key = r_["key"].split(":", 1)[1]
+            if r_["status"] == "UNDECIDED" and tuple_ok:
+                R.holds("R05-b", key, "the `None` component of the matched tuple reports UnknownType", loc=r_["loc"])
+            else:
+                R._add("R05-b", key, r_["status"], r_["msg"], r_["loc"], r_["detail"])
         R.floor("R05-b", "inout_kind_of_type call sites for " + posn, n, 1)
 
 
@@ -392,12 +433,23 @@ def _feasible(P, fi, pv, idx):
             while pp >= 0 and acc[pp][0].get("k") != "Match":
                 pp = acc[pp][1]
             m = acc[pp][0] if pp >= 0 else None
-            adt = P.adts.get(peel_ty(m["scrut"].get("t")).split("<")[0]) if m is not None else None
-            if adt is not None and adt.kind == "Enum" and all(not v["fields"] for v in adt.variants):
-                sa = pv.data_atoms(m["scrut"])
+            pairs = []
+            if m is not None:
+                sc_, pat = m["scrut"], n["pat"]
+                while pat.get("k") in ("Ref", "Deref", "Box"):
+                    pat = pat["p"]
+                if sc_.get("k") == "Tup" and pat.get("k") == "Tuple" and len(sc_["es"]) == len(pat["ps"]) and "ddpos" not in pat:
+                    pairs = list(zip(sc_["es"], pat["ps"]))     # match (a, mode) { (.., Mode::X) => .. }: component-wise
+                else:
+                    pairs = [(sc_, n["pat"])]
+            for se, sp in pairs:
+                adt = P.adts.get(peel_ty(se.get("t")).split("<")[0])
+                if adt is None or adt.kind != "Enum" or not all(not v["fields"] for v in adt.variants):
+                    continue
+                sa = pv.data_atoms(se)
                 known = {x[1].split("::")[-1] for x in sa if x[0] == "def" and x[1].startswith(adt.path + "::")}
                 opaque = [x for x in sa if x[0] in ("param", "call", "field")]
-                v, catch = arm_variants({"arms": [n]})
+                v, catch = arm_variants({"arms": [{"pat": sp}]})
                 if len(known) == 1 and not opaque and v and not catch and not (known & v):
                     return False
         child, p = p, acc[p][1]
@@ -803,6 +855,17 @@ def _r05e_reserved(P, R):
                 seen |= flds
                 if not flds:
                     opaque += 1
+        if elem not in seen:
+            # a wrapper that receives the name as a parameter: look from the position's function, helpers attached
+            fi = position_inlined(P, posn)
+            if _PV.get("P") is not P:
+                _PV.clear()
+                _PV["P"] = P
+            if posn not in _PV:
+                _PV[posn] = Prov(fi)
+            for c in fi.walk():
+                if c.get("k") in ("Call", "MethodCall") and call_name(c) == un.path and c["args"]:
+                    seen |= {x[1].replace(TS, "") for a_ in c["args"] for x in _PV[posn].atoms(a_) if x[0] == "field" and x[2] == "name" and x[1].startswith(TS)}
         if elem in seen:
             R.holds("R05-e", key, "`__` names rejected", loc=un.loc())
         elif opaque:
